@@ -701,3 +701,115 @@ def describe_order(o):
     if o[0] == "sorted":
         return f"sorted({describe_order(o[1])})"
     return o[1] if len(o) > 1 else str(o)
+
+
+# ------------------------------------------------------------------------------------------ statement-helper inlining
+def inline_stmt_helpers(repo, fn, depth=2):
+    """A copy of fn's def in which every statement-level call `_helper(a, b, k=c)` of a private function of the same
+    module that returns nothing is replaced by the helper's body, parameters substituted by the argument expressions
+    (defaults filled) and `if <param>` tests on constant arguments decided.  Rules that read a function's loops and
+    guards then see through helpers such as `_link_members(G, H.edges.tail(e), idx, node_dict, to_edge=False)`.
+    Helpers that assign to a parameter, contain `return <value>` or take * / ** arguments are left as calls."""
+    import copy as _copy
+
+    from ..model import FunctionInfo
+
+    mod = fn.module
+
+    def helper_of(call):
+        if not isinstance(call.func, ast.Name):
+            return None
+        h = mod.functions.get(call.func.id)
+        if h is None or not h.name.startswith("_") or h is fn:
+            return None
+        a = h.node.args
+        if a.vararg or a.kwarg or any(isinstance(x, ast.Starred) for x in call.args) or any(k.arg is None for k in call.keywords):
+            return None
+        if any(isinstance(x, ast.Return) and x.value is not None for x in ast.walk(h.node)) or any(isinstance(x, (ast.Yield, ast.YieldFrom)) for x in ast.walk(h.node)):
+            return None
+        params = [x.arg for x in a.posonlyargs + a.args + a.kwonlyargs]
+        stores = {x.id for x in ast.walk(h.node) if isinstance(x, ast.Name) and isinstance(x.ctx, (ast.Store, ast.Del))}
+        if stores & set(params):
+            return None
+        pos = [x.arg for x in a.posonlyargs + a.args]
+        binding = {}
+        for p_, v in zip(pos, call.args):
+            binding[p_] = v
+        for k in call.keywords:
+            binding[k.arg] = k.value
+        dflt = dict(zip(reversed(pos), reversed(a.defaults)))
+        dflt.update({x.arg: d for x, d in zip(a.kwonlyargs, a.kw_defaults) if d is not None})
+        for p_ in params:
+            if p_ not in binding:
+                if p_ not in dflt:
+                    return None
+                binding[p_] = dflt[p_]
+        return h, binding, stores
+
+    def fold(stmts):
+        out = []
+        for st in stmts:
+            if isinstance(st, ast.If):
+                t = st.test
+                neg = False
+                while isinstance(t, ast.UnaryOp) and isinstance(t.op, ast.Not):
+                    t, neg = t.operand, not neg
+                if isinstance(t, ast.Constant) and isinstance(t.value, (bool, type(None), int)):
+                    taken = bool(t.value) != neg
+                    out.extend(fold(st.body if taken else st.orelse))
+                    continue
+                st.body, st.orelse = fold(st.body), fold(st.orelse)
+            else:
+                for f_ in ("body", "orelse", "finalbody"):
+                    sub = getattr(st, f_, None)
+                    if isinstance(sub, list) and not isinstance(st, (ast.FunctionDef, ast.AsyncFunctionDef, ast.ClassDef)):
+                        setattr(st, f_, fold(sub))
+            out.append(st)
+        return out
+
+    counter = [0]
+
+    def rewrite(stmts, level):
+        out = []
+        for st in stmts:
+            if isinstance(st, ast.Expr) and isinstance(st.value, ast.Call) and level < depth:
+                hit = helper_of(st.value)
+                if hit is not None:
+                    h, binding, stores = hit
+                    counter[0] += 1
+                    ren = {n: f"{n}__h{counter[0]}" for n in stores}
+
+                    class Sub(ast.NodeTransformer):
+                        def visit_Name(self, n):
+                            if n.id in binding and isinstance(n.ctx, ast.Load):
+                                return ast.copy_location(_copy.deepcopy(binding[n.id]), n)
+                            if n.id in ren:
+                                return ast.copy_location(ast.Name(id=ren[n.id], ctx=n.ctx), n)
+                            return n
+
+                    body = [b for b in h.node.body if not (isinstance(b, ast.Expr) and isinstance(b.value, ast.Constant))]
+                    body = [b for b in body if not (isinstance(b, ast.Return) and b.value is None)]
+                    body = [Sub().visit(_copy.deepcopy(b)) for b in body]
+                    body = fold(body)
+                    for b in body:
+                        for x in ast.walk(b):
+                            if hasattr(x, "lineno"):
+                                x.lineno = st.lineno
+                                x.end_lineno = getattr(st, "end_lineno", st.lineno)
+                        ast.fix_missing_locations(b)
+                    out.extend(rewrite(body, level + 1))
+                    continue
+            for f_ in ("body", "orelse", "finalbody"):
+                sub = getattr(st, f_, None)
+                if isinstance(sub, list) and not isinstance(st, (ast.FunctionDef, ast.AsyncFunctionDef, ast.ClassDef)):
+                    setattr(st, f_, rewrite(sub, level))
+            for h_ in getattr(st, "handlers", []) or []:
+                h_.body = rewrite(h_.body, level)
+            out.append(st)
+        return out
+
+    node = _copy.deepcopy(fn.node)
+    node.body = rewrite(node.body, 0)
+    if counter[0] == 0:
+        return fn
+    return FunctionInfo(fn.module, fn.name, fn.qualname, node, fn.cls, fn.parent)
